@@ -2012,7 +2012,9 @@ def monitor_c17(t, view=None):
     if view is not None and rows is not None:
         df = view["exp"].results
         if df is None:
-            if rows:
+            # (an exception raised by the first callback's `on_tuning_end` keeps the store callback from writing)
+            end_raised = any(e["call"] == ["cb", "tuning_end"] and "raise" in (e["ans"] or {}) for e in t["dlg"].entries)
+            if rows and not end_raised:
                 out.append(F("c17:csv-missing", "results table could not be loaded although rows were stored"))
         else:
             if len(df) != len(rows):
